@@ -234,6 +234,12 @@ func main() {
 		fmt.Fprintf(&b, "  mkw %q %q %q %s %d%s\n", r.file, r.fn, r.callee, r.kind, r.line, sep)
 	}
 	b.WriteString("].\n")
+	// round 8 (P): the names updater.copySupportingFiles skips (its in-place copy
+	// must never have the configuration file as its destination)
+	skipNames, skipPure := skipGuard(fset, src(filepath.Join(repo, "internal/updater/updater.go")))
+	b.WriteString("\n")
+	list("copy_skip_names", skipNames)
+	fmt.Fprintf(&b, "Definition copy_skip_pure : bool := %v.\n", skipPure)
 	out := filepath.Join(verif, "coq", "Gen", "Writers.v")
 	_ = os.MkdirAll(filepath.Dir(out), 0o755)
 	if old, err := os.ReadFile(out); err != nil || string(old) != b.String() {
@@ -400,4 +406,74 @@ func isLocalPackage(x ast.Expr, f *ast.File) bool {
 // type names of the rename-based packages that occur in declarations
 func isTypeName(n string) bool {
 	return n == "PendingFile" || n == "Option"
+}
+
+// skipGuard reads the skip condition of updater.copySupportingFiles: the first
+// `if` of the loop body whose body is a lone `continue`.  names: the string
+// literals the base name is compared with; pure: the condition is nothing but
+// a disjunction of `name == "literal"` on the variable that filepath.Split
+// gave, and the loop has no other statement before it that could copy.
+func skipGuard(fset *token.FileSet, path string) (names []string, pure bool) {
+	f, err := parser.ParseFile(fset, path, nil, 0)
+	if err != nil {
+		return nil, false
+	}
+	for _, decl := range f.Decls {
+		fd, ok := decl.(*ast.FuncDecl)
+		if !ok || fd.Name.Name != "copySupportingFiles" || fd.Body == nil {
+			continue
+		}
+		for _, st := range fd.Body.List {
+			rng, ok := st.(*ast.RangeStmt)
+			if !ok || len(rng.Body.List) < 2 {
+				continue
+			}
+			// first statement: _, name := filepath.Split(f)
+			as, ok := rng.Body.List[0].(*ast.AssignStmt)
+			if !ok || len(as.Lhs) != 2 || len(as.Rhs) != 1 {
+				return nil, false
+			}
+			nameVar, ok := as.Lhs[1].(*ast.Ident)
+			call, ok2 := as.Rhs[0].(*ast.CallExpr)
+			if !ok || !ok2 {
+				return nil, false
+			}
+			if sel, ok := call.Fun.(*ast.SelectorExpr); !ok || sel.Sel.Name != "Split" {
+				return nil, false
+			}
+			ifs, ok := rng.Body.List[1].(*ast.IfStmt)
+			if !ok || ifs.Init != nil || ifs.Else != nil || len(ifs.Body.List) != 1 {
+				return nil, false
+			}
+			if br, ok := ifs.Body.List[0].(*ast.BranchStmt); !ok || br.Tok != token.CONTINUE {
+				return nil, false
+			}
+			pure = true
+			var walk func(e ast.Expr)
+			walk = func(e ast.Expr) {
+				switch x := e.(type) {
+				case *ast.ParenExpr:
+					walk(x.X)
+				case *ast.BinaryExpr:
+					if x.Op == token.LOR {
+						walk(x.X)
+						walk(x.Y)
+						return
+					}
+					id, okI := x.X.(*ast.Ident)
+					lit, okL := x.Y.(*ast.BasicLit)
+					if x.Op == token.EQL && okI && okL && id.Name == nameVar.Name && lit.Kind == token.STRING {
+						names = append(names, strings.Trim(lit.Value, "\"`"))
+						return
+					}
+					pure = false
+				default:
+					pure = false
+				}
+			}
+			walk(ifs.Cond)
+			return names, pure
+		}
+	}
+	return nil, false
 }
